@@ -127,7 +127,12 @@ func makeAccumulatorFunc(expr parser.ItemType) (newAccumulatorFunc, error) {
 
 			return &accumulator{
 				AddFunc: func(v float64) {
-					hasValue = true
+					if !hasValue {
+						// Start from the first sample, not from +0, so that a sum of -0 stays -0.
+						hasValue = true
+						value = v
+						return
+					}
 					value += v
 				},
 				ValueFunc: func() float64 { return value },
